@@ -171,46 +171,59 @@ func (x *Exec) havocLock(cfg *Config, ld *lockDecl, o *origin) {
 	x.havocModifies(cfg, env, c)
 }
 
-// seedHeldLocks: a function that requires held(p.mu) for a parameter p whose
-// type has a lock invariant starts with that lock held.
+// seedHeldLocks: a function that requires held(e.mu), where e is an
+// expression over its parameters whose type has a lock invariant for mu,
+// starts with that lock held.
 func (x *Exec) seedHeldLocks(cfg *Config) {
-	f := cfg.frames[0]
-	vals := append([]*ssaParamLike{}, paramLikes(x.fn)...)
-	for _, p := range vals {
-		el := derefType(p.typ)
-		if el == nil || !isStructType(el) {
-			continue
-		}
-		s := el.Underlying().(*types.Struct)
-		for i := 0; i < s.NumFields(); i++ {
-			ld := x.P.lockDecls()[typeName(el)+"."+s.Field(i).Name()]
-			if ld == nil {
-				continue
+	env := x.entryEnv(cfg)
+	var visit func(e Expr, neg bool)
+	visit = func(e Expr, neg bool) {
+		switch ee := e.(type) {
+		case EUnary:
+			if ee.Op == "!" {
+				visit(ee.X, !neg)
 			}
-			want := "held(" + p.name + "." + s.Field(i).Name() + ")"
-			found := false
-			for _, r := range x.c.Requires {
-				if strings.Contains(r.Text, want) && !strings.Contains(r.Text, "!"+want) {
-					found = true
-				}
+		case EBinary:
+			if ee.Op == "&&" {
+				visit(ee.L, neg)
+				visit(ee.R, neg)
 			}
-			if !found {
-				continue
+		case ECall:
+			if ee.Fn != "held" || neg || len(ee.Args) != 1 {
+				return
 			}
-			var base Term
-			if p.free {
-				// captured variable: the cell content
-				cell := f.regs[p.val]
-				a, ok := cell.(AddrV)
-				if !ok {
+			fe, ok := ee.Args[0].(EField)
+			if !ok {
+				return
+			}
+			base := x.spec(env, fe.X)
+			if base.Ty == nil {
+				return
+			}
+			el := derefType(base.Ty)
+			if el == nil || !isStructType(el) {
+				return
+			}
+			s := el.Underlying().(*types.Struct)
+			for i := 0; i < s.NumFields(); i++ {
+				if s.Field(i).Name() != fe.Name {
 					continue
 				}
-				base = Select(x.heapGet(cfg.st, a.Arr, SArr(SInt, SInt)), a.Base)
-			} else {
-				base = x.tv(f.regs[p.val])
+				ld := x.P.lockDecls()[typeName(el)+"."+fe.Name]
+				if ld == nil {
+					return
+				}
+				for _, h := range cfg.heldLocks {
+					if h.ld == ld && h.o.Base.S == base.T.S {
+						return
+					}
+				}
+				cfg.heldLocks = append(cfg.heldLocks, heldLock{ld, &origin{el, i, base.T}})
 			}
-			cfg.heldLocks = append(cfg.heldLocks, heldLock{ld, &origin{el, i, base}})
 		}
+	}
+	for _, r := range x.c.Requires {
+		visit(r.E, false)
 	}
 }
 
